@@ -23,3 +23,20 @@ func installAuto() {
 		jsimy.NowHook = func() time.Time { return fixed }
 	}
 }
+
+// setClockShift makes the library's clock (engine B) the simulated clock
+// plus shift seconds; called by the controller before the tasks start.
+func setClockShift(shift int64) int64 {
+	if FixedClock {
+		return 0
+	}
+	if shift == 0 {
+		jsimy.NowHook = nil
+		return 0
+	}
+	jsimy.NowHook = func() time.Time {
+		n := time.Now()
+		return time.Unix(n.Unix()+shift, int64(n.Nanosecond()))
+	}
+	return shift
+}
